@@ -40,7 +40,7 @@ ASSUMPTIONS = [
   'could be chosen for the requested name and is reported (C21:engine:rejected-<Exc>)',
 ]
 BUDGET = {'quick': dict(examples=5000, shards=8, max_seconds=60),
-          'thorough': dict(examples=120000, shards=16, max_seconds=600)}
+          'thorough': dict(examples=100000, shards=16, max_seconds=1800)}
 
 IDENT_RE = re.compile(r'\A[A-Za-z][A-Za-z0-9_]*\Z')     # ($ would accept a trailing newline)
 AVOID_RE = re.compile(r'\A[A-Za-z_][A-Za-z0-9_]*\Z')
